@@ -1,14 +1,17 @@
 #!/bin/bash
-# tools/try_mutant.sh <patch.diff> <Cnn> [tier]  — apply a seeded change to /repo, run the check, undo it.
+# tools/try_mutant.sh <patch.diff> <Cnn> [tier] [worktree]
+# Applies a seeded change to a scratch worktree of /repo (never to /repo itself), runs the check of <Cnn>
+# against that worktree (VERIF_REPO), and removes the change again. Evidence of such runs goes to .work/evidence-alt.
 set -u
-P=$1; ID=$2; TIER=${3:-quick}
-cd /repo || exit 2
-if ! git diff --quiet; then echo "/repo has uncommitted changes; refusing"; exit 2; fi
-if ! git apply --3way "$P" 2>/dev/null && ! git apply "$P"; then echo "patch does not apply"; git checkout -- .; exit 2; fi
-git reset -q
-cd /verif && ./check "$ID" "$TIER" > .work/mutant.$$.log 2>&1; rc=$?
-grep -E "^(VIOLATION|KNOWN|INCONCLUSIVE|C[0-9]+ )" .work/mutant.$$.log | head -8
+P=$(readlink -f "$1"); ID=$2; TIER=${3:-quick}; WT=${4:-/tmp/wt/try-$ID-$$}
+made=0
+if [ ! -d "$WT" ]; then git -C /repo worktree add -q --detach "$WT" HEAD || exit 2; made=1; fi
+cd "$WT" || exit 2
+git checkout -q -- . ; git clean -fdq -e _seeded; git checkout -q --detach $(git -C /repo rev-parse HEAD)
+if ! git apply "$P" 2>/dev/null && ! git apply --3way "$P" 2>/dev/null; then echo "patch does not apply: $P"; [ $made = 1 ] && git -C /repo worktree remove --force "$WT"; exit 2; fi
+cd /verif && VERIF_REPO="$WT" ./check "$ID" "$TIER" > .work/mutant.$$.log 2>&1; rc=$?
+grep -E "^(VIOLATION|KNOWN|INCONCLUSIVE|BUILD|C[0-9]+ )" .work/mutant.$$.log | cut -c1-220 | head -6
 rm -f .work/mutant.$$.log
-git -C /repo checkout -- . ; git -C /repo clean -fdq -e _seeded
-echo "mutant $(basename $(dirname $P)) of $ID -> exit $rc"
-exit 0
+git -C "$WT" checkout -q -- . ; git -C "$WT" clean -fdq -e _seeded
+[ $made = 1 ] && git -C /repo worktree remove --force "$WT"
+echo "mutant $P on $ID $TIER -> exit $rc"
